@@ -270,6 +270,13 @@ def write_evidence(ctx, level, coverage, assumptions=(), extra=None):
         "wall_s": ctx.wall(),
         "violations": len(ctx.violations),
     }
+    # the schema's own keys have fixed types: catch a clash before the file is written
+    for k in ("evaluations", "distinct_nontrivial", "states", "transitions", "traces_validated_against_impl", "obligations", "discharged", "programs",
+              "disagreements_checked"):
+        if k in coverage and not isinstance(coverage[k], int):
+            raise Machinery("evidence coverage key %r must be an integer" % k)
+    if not isinstance(coverage.get("samples", []), list) or not coverage.get("samples"):
+        raise Machinery("evidence coverage.samples must be a non-empty list")
     if extra:
         ev.update(extra)
     if ctx.notes:
